@@ -241,6 +241,11 @@ HAND = [
     # 21 ... or on the iteration
     "{% for i in (1..3) %}{% if i == 2 %}{% macro mm b, a: 'A' %}({{ a }}|{{ b }}){% endmacro %}{% else %}"
     "{% macro mm a, b: 'B' %}[{{ a }}|{{ b }}]{% endmacro %}{% endif %}{% call mm i, d.a %}{% endfor %}",
+    # 22, 23 the same with macros that differ in a default value or in their body only (same parameter names)
+    "{% if d.a > 3 %}{% macro mm a, b: 'B' %}[{{ a }}|{{ b }}]{% endmacro %}{% else %}"
+    "{% macro mm a, b: d.b %}({{ a }}|{{ b }}){% endmacro %}{% endif %}[[mac:{% call mm d.a %}]]{% call mm %}{% call mm b: 2 %}",
+    "{% for i in (1..3) %}{% if i == 2 %}{% macro mm a, b: 'A' %}({{ a }}|{{ b }}){% endmacro %}{% else %}"
+    "{% macro mm a, b: i %}[{{ a }}|{{ b }}]{% endmacro %}{% endif %}{% call mm i %}{% call mm %}{% endfor %}",
 ]
 PROCESS_PROBES = (18, 19, 4, 5, 9, 17)  # (the ones that only read first, the ones that might leave something behind last) rendered on brand-new objects before and after every history
 HAND_DATE_NOW = {8}
